@@ -26,11 +26,13 @@ structure DSt where
 
 def parseOutcome : String → Outcome
   | "done" => .done | "doneFinishFail" => .doneFinishFail | "notDone" => .notDone | "fail" => .fail
-  | "failCtx" => .failCtx | "fatal" => .fatal | "crash" => .crash | "notDoneFin" => .notDoneFin | _ => .done
+  | "failCtx" => .failCtx | "fatal" => .fatal | "crash" => .crash | "notDoneFin" => .notDoneFin
+  | "readFault" => .readFault | "notDoneWriteFail" => .notDoneWriteFail | "failWriteFail" => .failWriteFail | _ => .done
 
 def showOutcome : Outcome → String
   | .done => "done" | .doneFinishFail => "doneFinishFail" | .notDone => "notDone" | .fail => "fail"
   | .failCtx => "failCtx" | .fatal => "fatal" | .crash => "crash" | .notDoneFin => "notDoneFin"
+  | .readFault => "readFault" | .notDoneWriteFail => "notDoneWriteFail" | .failWriteFail => "failWriteFail"
 
 def parseFilter (j : Json) : Filter :=
   { type := match jStr j "type" with | "tx" => some .tx | "payload" => some .payload | _ => none
